@@ -5,7 +5,7 @@
        <nlines> { <nraws> <hextext> <hexraw>... } <nevents> { event }
      event = T <line> <hexdiag> <nops> { op } | S | P | X <exec 0|1>
      op    = RA <prefix> <from> <to> | RT <ri> <ti> <from> <to> | IA <t> | IB <t> | D | CC <ri>
-     -> "panic" | "<log>;<hexdisk>;<nops>;<lines>"
+     -> "panic" | "<log>;<hexdisk>;<nops>;<lines>;<nchmod>"
         log = entries joined by ","    lines = per line  <hextext>/<hexraw>/...  joined by "," *)
 let parse_entry (s : string) : entry =
   match String.split_on_char ':' s with
@@ -59,14 +59,28 @@ let run_request (toks : string list) : string =
   let evs = times (nint ()) event in
   match run_script a s only file groups evs before with
   | None -> "panic"
-  | Some (((log, disk), nops), lines) ->
+  | Some ((((log, disk), nops), lines), nchmod) ->
     String.concat "," (List.map (fun (ln, d) -> show_descr ln d) log) ^ ";" ^
     hex_of_bytes disk ^ ";" ^ string_of_int (int_of_nat nops) ^ ";" ^
     String.concat "," (List.map (fun (raws, text) ->
-        String.concat "/" (hex_of_bytes text :: List.map hex_of_bytes raws)) lines)
+        String.concat "/" (hex_of_bytes text :: List.map hex_of_bytes raws)) lines) ^
+    ";" ^ string_of_int (int_of_nat nchmod)
+
+(* chk <autofix 0|1> <show 0|1> <executable 0|1> <committed 0|1> <hexfile> <hexonly>...
+   -> "panic" | "<printed entries joined by ,>;<number of chmod operations>"   (Model.Autofix.check_executable) *)
+let chk_request (toks : string list) : string =
+  match toks with
+  | a :: s :: x :: c :: file :: only ->
+    (match check_executable { o_autofix = (a = "1"); o_show = (s = "1"); o_only = List.map bytes_of_hex only }
+             (bytes_of_hex file) (x = "1") (c = "1") with
+     | Panic -> "panic"
+     | Ok (printed, ops) ->
+       String.concat "," (List.map (fun (d, ln) -> show_descr ln d) printed) ^ ";" ^ string_of_int (List.length ops))
+  | _ -> "ERR:bad chk request"
 
 let handle (args : string list) : string =
   match args with
+  | "chk" :: rest -> chk_request rest
   | "cons" :: r :: o :: n :: es ->
     let log = List.map parse_entry es in
     if consistent_hist (nat_of_int (int_of_string r)) (bytes_of_hex o) log (bytes_of_hex n) then "1" else "0"
